@@ -11,7 +11,7 @@ new="""	if mayRead, mayWrite := user.AuthorizeDatabase(originql.ReadPrivilege, r
 assert s.count(old)==1
 s=s.replace(old,new)
 open(p,'w').write(s)
-for f in ('handler_logstore.go','handler_prom.go'):
+for f in ('handler_logstore.go','handler_prom.go','handler_logstore_stream.go'):
     p='lib/util/lifted/influx/httpd/'+f
     t=open(p).read().replace("requireAdmin(","mustBeAdmin(")
     open(p,'w').write(t)
